@@ -48,7 +48,8 @@ class Owner:
         self.log.append("m")
 
 
-LINK_NAMES = ("value", "child", "children", "table", "group", "mchild", "mlist", "mdef", "tag", "trait_added", "extra")
+LINK_NAMES = ("value", "child", "children", "table", "group", "mchild", "mlist", "mdef", "tag", "trait_added", "extra", "xlist",
+              "xlist_items")
 OPT = "<trait('extra', optional=True)>"
 REQ = "<trait('extra')>"          # a REQUIRED named observer of a trait that was added with add_trait
 SPECIAL_TEXTS = (OPT, REQ)
@@ -158,6 +159,8 @@ OPT_OP = st.one_of(
     st.tuples(st.just("rem_opt"), st.integers(0, 2)), st.tuples(st.just("rem_opt"), st.integers(0, 2)),
     st.tuples(st.just("add_trait_root")), st.tuples(st.just("set_extra")), st.tuples(st.just("readd_trait_root")),
     st.tuples(st.just("add_again_root")), st.tuples(st.just("add_req"), st.integers(0, 2)), st.tuples(st.just("rem_req"), st.integers(0, 2)),
+    # a CONTAINER trait added to the root (it brings an `xlist_items` companion event trait with it)
+    st.tuples(st.just("add_xlist")),
     st.tuples(st.just("add_trait_root")), st.tuples(st.just("set_extra")),
     st.tuples(st.just("add"), st.integers(0, 2), st.integers(0, 2), st.booleans()), st.tuples(st.just("rem_live"), st.integers(0, 5)),
     st.tuples(st.just("gc")), st.tuples(st.just("kill_owner")),
@@ -167,7 +170,7 @@ OPT_OP = st.one_of(
 def opt_strategy(tier):
     """Histories concentrated on the optional trait that is observed before it exists."""
     return st.fixed_dictionaries({
-        "exprs": st.lists(G.expr_strategy(), min_size=2, max_size=2),
+        "exprs": st.tuples(G.expr_strategy(), st.one_of(G.expr_strategy(), st.just([[[], "*", True]]))).map(list),
         "npool": st.just(2), "prelink": st.just([]), "dups": st.just(None),
         "ops": st.lists(OPT_OP, min_size=3, max_size=12),
     })
@@ -226,6 +229,12 @@ def hist_run(case, ctx):
                     except Exception as e:
                         ctx.fail("remove/raised", "removing the registration on the added trait raised %r" % (e,))
                     counts[key] -= 1
+            elif k == "add_xlist":
+                if root.trait("xlist") is None:
+                    from traits.api import List as _List
+                    root.add_trait("xlist", _List(Int))
+                    ctx.label("container-trait-added")
+                    interesting = True
             elif k == "add_again_root":
                 if root.trait("extra") is not None:
                     root.add_trait("extra", Int(0))          # a second add_trait for the same, already added, name
@@ -440,8 +449,10 @@ def hist_run(case, ctx):
                 p = population(pool)
                 if owner_alive or not any(kk[0] == 2 for kk in counts):
                     if p != base:
-                        ctx.fail("balance/populations", "all registrations removed but notifier populations differ: %r"
-                                 % {kk: (base.get(kk), v) for kk, v in p.items() if base.get(kk) != v})
+                        diff_ = {kk: (base.get(kk), v) for kk, v in p.items() if base.get(kk) != v}
+                        # F49: what is left sits only on the `<name>_items` companion of a container trait added later
+                        sig = "/items-companion" if all(kk[1] == "xlist_items" for kk in diff_) else ""
+                        ctx.fail("balance/populations" + sig, "all registrations removed but notifier populations differ: %r" % diff_)
         # ---- weakness of the observed object: drop the root, keep downstream objects alive
         if not self_referential(root, exprs) and any(c > 0 for c in counts.values()):
             others = pool[1:]
